@@ -292,12 +292,15 @@ func (s *Store) Close() error {
 
 	cerr := s.Err()
 
-	err := s.index.Close()
+	// Stop the primary collector and write the primary first: the index must
+	// never be saved while relocations can still change it, and must never
+	// name records that are not written yet.
+	err := s.index.Primary.Close()
 	if err != nil {
 		cerr = err
 	}
 	verifhook.Yield("store.Close.betweenCloses")
-	if err = s.index.Primary.Close(); err != nil {
+	if err = s.index.Close(); err != nil {
 		cerr = err
 	}
 	s.fileCache.Clear()
